@@ -123,6 +123,12 @@ def expLitDigits (dig : UInt8 → Bool) (u : Bytes) : Bytes :=
   | _ :: r3 => (splitSign r3).2
   | [] => []
 
+/-- what the clamp of the exponent digit loop adds to the exponent the specification reads -/
+def expGap (dig : UInt8 → Bool) (u : Bytes) : Int :=
+  match spR2 dig u with
+  | _ :: r3 => gapInt (splitSign r3).1 (splitSign r3).2
+  | [] => 0
+
 theorem ec_facts : (lowerc 46 == 112) = false ∧ (lowerc 46 == 101) = false ∧
     digS true 43 = false ∧ digS true 45 = false ∧ digS false 43 = false ∧ digS false 45 = false := by
   decide
@@ -190,12 +196,12 @@ theorem tail_spec (hex : Bool) (rest : Bytes)
     (hu : ∃ prev', underscoresOK (digS hex) prev' rest = true) :
     (spTail hex (strip rest) = none → tailAdj hex rest = none) ∧
     (∀ x, spTail hex (strip rest) = some x → ∃ y, tailAdj hex rest = some y ∧
-      (valOf 10 (match strip rest with | _ :: r3 => (splitSign r3).2 | [] => []) < 10000 → y = x)) := by
+      y = x + (match strip rest with | _ :: r3 => gapInt (splitSign r3).1 (splitSign r3).2 | [] => 0)) := by
   rcases hrest with h | ⟨c, r1, h, h95, h46, hd⟩
   · subst h
     simp only [strip, List.filter_nil, spTail, tailAdj]
     cases hex
-    · exact ⟨fun h => (by cases h), fun x h => ⟨x, h, fun _ => rfl⟩⟩
+    · exact ⟨fun h => (by cases h), fun x h => ⟨x, h, by simp⟩⟩
     · exact ⟨fun _ => rfl, fun x h => (by cases h)⟩
   · subst h
     obtain ⟨prev', hu⟩ := hu
@@ -225,7 +231,8 @@ theorem spTail_dot (hex : Bool) (r'' : Bytes) : spTail hex (46 :: r'') = none :=
 text that obeys the underscore rule. Same accepted language; same sign and base flags; the
 `uint64` mantissa does not wrap; and when `trunc` is false the returned (mantissa, exp) denote
 the same number as the specification's (M, E): M = mantissa·B^j and exp = E + bits·j for the
-number j of dropped trailing zero digits (exponent literal below the clamp 10000). -/
+number j of dropped trailing zero digits, plus the gap `expGap` the clamp of the exponent digit
+loop opens for exponent literals of 100000 and more. -/
 theorem rfTail_spec (hex neg : Bool) (t : Bytes) (prev : Bool)
     (hu : underscoresOK (digS hex) prev t = true) :
     (parseBody (digS hex) (baseOf hex) (if hex then 112 else 101) (if hex then 4 else 1) hex (strip t) = none →
@@ -234,13 +241,12 @@ theorem rfTail_spec (hex neg : Bool) (t : Bytes) (prev : Bool)
       (rfTail hex neg t).ok = true ∧ (rfTail hex neg t).neg = neg ∧ (rfTail hex neg t).hex = hex ∧
       (rfTail hex neg t).mant < 2 ^ 64 ∧
       ((rfTail hex neg t).trunc = false → ∃ j : Nat, M = (rfTail hex neg t).mant * baseOf hex ^ j ∧
-        ((rfTail hex neg t).mant ≠ 0 → valOf 10 (expLitDigits (digS hex) (strip t)) < 10000 →
-          (rfTail hex neg t).exp = E + (((if hex then 4 else 1) * j : Nat) : Int))) ∧
+        ((rfTail hex neg t).mant ≠ 0 →
+          (rfTail hex neg t).exp = E + (((if hex then 4 else 1) * j : Nat) : Int) + expGap (digS hex) (strip t))) ∧
       ((rfTail hex neg t).trunc = true → ∃ j : Nat,
         (rfTail hex neg t).mant * baseOf hex ^ j < M ∧ M < ((rfTail hex neg t).mant + 1) * baseOf hex ^ j ∧
         baseOf hex ^ (maxDOf hex - 1) ≤ (rfTail hex neg t).mant ∧
-        (valOf 10 (expLitDigits (digS hex) (strip t)) < 10000 →
-          (rfTail hex neg t).exp = E + (((if hex then 4 else 1) * j : Nat) : Int)))) := by
+        (rfTail hex neg t).exp = E + (((if hex then 4 else 1) * j : Nat) : Int) + expGap (digS hex) (strip t))) := by
   rw [rfTail_eq, parseBody_eq2]
   rcases mant_phase hex t with ⟨hm, r'', hr2⟩ | ⟨st, rest, hm, hstrip, hsd, href⟩
   · -- second point
@@ -273,14 +279,15 @@ theorem rfTail_spec (hex neg : Bool) (t : Bytes) (prev : Bool)
         simp only [Option.map_some, Option.some.injEq, Prod.mk.injEq] at h
         obtain ⟨hM, hE⟩ := h
         have invT := mantLoop_invT hex t {} 0 0 (inv_init hex) (invT_init hex) st rest hm
-        have hexp : ∀ (hm0 : st.mant ≠ 0), valOf 10 (expLitDigits (digS hex) (strip t)) < 10000 →
+        have hyx : y = x + expGap (digS hex) (strip t) := by unfold expGap; exact hyx
+        have hexp : ∀ (hm0 : st.mant ≠ 0),
             (if (st.mant != 0) = true then
               (if hex = true then (if (!st.sawdot) = true then (st.nd : Int) else st.dp) * 4
                 else if (!st.sawdot) = true then (st.nd : Int) else st.dp) + y
                 - ((if hex = true then st.ndMant * 4 else st.ndMant : Nat) : Int)
-            else 0) = E + (((if hex then 4 else 1) * (st.nd - st.ndMant) : Nat) : Int) := by
-          intro hm0 hlit
-          have hyx' := hyx hlit
+            else 0) = E + (((if hex then 4 else 1) * (st.nd - st.ndMant) : Nat) : Int) + expGap (digS hex) (strip t) := by
+          intro hm0
+          have hyx' := hyx
           have hne : (st.mant != 0) = true := by simpa using hm0
           simp only [hne, if_true]
           rw [← hE, hyx']
@@ -290,7 +297,7 @@ theorem rfTail_spec (hex neg : Bool) (t : Bytes) (prev : Bool)
             push_cast; omega
           · simp only [if_true] at v3 ⊢
             push_cast; omega
-        refine ⟨rfl, rfl, rfl, v1, fun htr => ⟨st.nd - st.ndMant, ?_, fun hm0 hlit => hexp hm0 hlit⟩, fun htr => ?_⟩
+        refine ⟨rfl, rfl, rfl, v1, fun htr => ⟨st.nd - st.ndMant, ?_, fun hm0 => hexp hm0⟩, fun htr => ?_⟩
         · rw [← hM]; exact v2 htr
         · have ht : st.trunc = true := htr
           obtain ⟨b1, b2⟩ := invT.t2 ht
@@ -304,6 +311,6 @@ theorem rfTail_spec (hex neg : Bool) (t : Bytes) (prev : Bool)
             have : 0 < baseOf hex ^ (st.ndMant - 1) := Nat.pow_pos (by have := base_ge hex; omega)
             omega
           refine ⟨st.nd - st.ndMant, by rw [← hM]; exact b1, by rw [← hM]; exact b2, by rw [← hfull]; exact c1,
-            fun hlit => hexp hmpos hlit⟩
+            hexp hmpos⟩
 
 end C03
